@@ -703,7 +703,7 @@ func (st *State) execBuiltin(name string, call *ast.CallExpr) []Outcome {
 		panic(vcErr("make of unsupported type " + t.String()))
 	case "new":
 		t := st.subst(st.typeOf(call.Args[0]))
-		ref := st.allocRef()
+		ref := st.allocObject(t)
 		st.storePointee(ref, t, st.zeroVal(t))
 		return one(vInt(ref, types.NewPointer(t)))
 	case "copy":
@@ -962,10 +962,12 @@ func (st *State) applyContract(fct *FuncContract, fn *types.Func, recv *Val, arg
 		}
 	}
 	// allocation may have happened inside the callee
-	newAlloc := fc.fresh("alloc", "Int")
-	st.assume(sCmp(">=", newAlloc, st.alloc))
-	st.havocFreshHeaps(rtypes, old)
-	st.alloc = newAlloc
+	if !fct.NoAlloc {
+		newAlloc := fc.fresh("alloc", "Int")
+		st.assume(sCmp(">=", newAlloc, st.alloc))
+		st.havocFreshHeaps(rtypes, old)
+		st.alloc = newAlloc
+	}
 	rn := map[string]Val{}
 	for k, v := range names {
 		rn[k] = v
